@@ -1,7 +1,7 @@
 """C10 - temperatures obey the pipe cooling law, energy-conserving mixing and fixed feeds."""
 from pvmon import netgen
 from pvmon.monitors import Obs, mon_c10
-from pvmon.props.common import rng_for, run_thermal
+from pvmon.props.common import suite_cases, run_suite_case, rng_for, run_thermal
 
 MANIFEST = {
     "text": "Held on every returned thermal solution of the seeded workload: per flowing pipe section the exponential cooling law (reverse flow included), per junction the energy-conserving mixing law with mean heat capacities, feeder / circulation-pump temperatures, and - in nets without heat sources - min/max bounds; residuals <= 1e-6 K / 1e-6 relative on tight solves.",
@@ -23,8 +23,10 @@ MODES = ["sequential", "bidirectional", "heat"]
 
 
 def gen_cases(tier, seed):
-    return [{"seed": seed, "i": i, "kind": "passive" if i % 2 == 0 else "loop", "mode": MODES[(i // 2) % 3],
-             "numba": bool((i // 6) % 2), "tight": bool(i % 5 != 4)} for i in range(CONFIG[tier]["cases"])]
+    _cases = [{"seed": seed, "i": i, "kind": "passive" if i % 2 == 0 else "loop", "mode": MODES[(i // 2) % 3], "numba": bool((i // 6) % 2), "tight": bool(i % 5 != 4)} for i in range(CONFIG[tier]["cases"])]
+    if tier == "thorough":
+        _cases = list(_cases) + suite_cases()
+    return _cases
 
 
 def make(case):
@@ -41,6 +43,12 @@ def make(case):
 
 
 def run_case(case, ctx):
+    if case.get("kind") == "repo_suite":
+        obs = Obs()
+        n = run_suite_case(case, "C10", obs)
+        rec = {"nontrivial": n > 0, "sample": {"repo_suite_part": case["part"], "pipeflow_calls_observed": n}, "evaluations": max(n, 1)}
+        rec.update(obs.record())
+        return rec
     spec, opts = make(case)
     net = netgen.build(spec)
     obs = Obs()
